@@ -4,7 +4,7 @@ From Coq Require Import List NArith Bool Arith Lia.
 From Verif Require Import lib.Quote model.ExSyntax model.ExLexer model.ExParser model.ExPrinter gen.GrammarE3
   model.ExScanner model.ExRefactor model.ExTemplate
   proofs.QuoteProofs proofs.ExPrintProofs proofs.ExLexerProofs proofs.ExRoundtrip proofs.ExTokok
-  proofs.ExScannerProofs proofs.ExRefactorProofs.
+  proofs.ExScannerProofs proofs.ExRefactorProofs proofs.ExRender.
 Import ListNotations.
 Open Scope N_scope.
 
@@ -64,3 +64,64 @@ Theorem eval_preserved_stmt : forall (lower : N -> N) ctx e,
   (forall c, lower (lower c) = lower c) ->
   eval_frag lower ctx (norm lower e) = eval_frag lower ctx e.
 Proof. intros lower ctx e H. apply eval_frag_norm. exact H. Qed.
+
+(* ---------------------------------------------------------------------------------------------- *)
+(* the round trip on text: print, lex, parse *)
+
+Theorem roundtrip_stmt : forall (lower : N -> N) (printable : N -> bool) inp ts t,
+  printable 10 = false -> (forall c, lower (lower c) = lower c) -> valid_codepoints inp ->
+  lex inp = LOk ts -> parse_tokens ts = POk t ->
+  glue_free lower printable t = true ->
+  exists ts', lex (print lower printable t) = LOk ts'
+              /\ parse_tokens ts' = POk (norm lower t)
+              /\ print lower printable (norm lower t) = print lower printable t.
+Proof.
+  intros lower printable inp ts t Hnl Hid Hv HL HP HG.
+  exists (ptoks lower printable t). split; [apply lex_print; exact HG|].
+  split; [apply (reparse_tokens_stmt lower printable inp ts t Hnl Hv HL HP)|apply print_norm; exact Hid].
+Qed.
+
+Definition w_lower (c : N) : N :=
+  if (65 <=? c) && (c <=? 90) then c + 32 else if c =? 0x13A0 then 0xAB70 else c.
+Definition w_printable (c : N) : bool := (32 <=? c) && (c <? 127).
+
+Lemma w_lower_idem c : w_lower (w_lower c) = w_lower c.
+Proof.
+  unfold w_lower. destruct ((65 <=? c) && (c <=? 90)) eqn:E.
+  - replace ((65 <=? c + 32) && (c + 32 <=? 90)) with false by lia. replace (c + 32 =? 5024) with false by lia. reflexivity.
+  - destruct (c =? 5024) eqn:E2.
+    + reflexivity.
+    + rewrite E, E2. reflexivity.
+Qed.
+
+(* the side condition cannot be dropped: a name whose lower-case form leaves the grammar's letter set (Cherokee
+   U+13A0 -> U+AB70), and a text literal whose value ends in a backslash before a later quote (the source
+   "a\x5c" & "b") — the printed text of a parseable expression does not parse *)
+Theorem roundtrip_refuted :
+  exists (lower : N -> N) (printable : N -> bool) inp1 inp2,
+    printable 10 = false /\ (forall c, lower (lower c) = lower c) /\ valid_codepoints inp1 /\ valid_codepoints inp2 /\
+    (exists ts t, lex inp1 = LOk ts /\ parse_tokens ts = POk t /\
+       exists ts', lex (print lower printable t) = LOk ts' /\ parse_tokens ts' = PSyntax) /\
+    (exists ts t, lex inp2 = LOk ts /\ parse_tokens ts = POk t /\
+       exists ts', lex (print lower printable t) = LOk ts' /\ parse_tokens ts' = PSyntax).
+Proof.
+  exists w_lower, w_printable, [0x13A0], [34; 97; 92; 120; 53; 99; 34; 32; 38; 32; 34; 98; 34].
+  split; [reflexivity|]. split; [exact w_lower_idem|]. split; [repeat constructor|]. split; [repeat constructor|].
+  split.
+  - eexists. eexists. split; [vm_compute; reflexivity|]. split; [vm_compute; reflexivity|].
+    eexists. split; vm_compute; reflexivity.
+  - eexists. eexists. split; [vm_compute; reflexivity|]. split; [vm_compute; reflexivity|].
+    eexists. split; vm_compute; reflexivity.
+Qed.
+
+(* the side condition holds on ordinary expressions:  - Foo.Bar ^ 2 * f(x, "a\\") [ 01.50 ]  and  foo.1 .2  *)
+Example glue_free_witness :
+  let inp1 := [45; 32; 70; 111; 111; 46; 66; 97; 114; 32; 94; 32; 50; 32; 42; 32; 102; 40; 120; 44; 32; 34; 97; 92; 92; 34; 41;
+               32; 91; 32; 48; 49; 46; 53; 48; 32; 93] in
+  let inp2 := [102; 111; 111; 46; 49; 32; 46; 50] in
+  exists ts1 t1 ts2 t2, lex inp1 = LOk ts1 /\ parse_tokens ts1 = POk t1 /\ glue_free w_lower w_printable t1 = true
+                     /\ lex inp2 = LOk ts2 /\ parse_tokens ts2 = POk t2 /\ glue_free w_lower w_printable t2 = true.
+Proof.
+  cbv zeta. do 4 eexists. split; [vm_compute; reflexivity|]. split; [vm_compute; reflexivity|].
+  split; [vm_compute; reflexivity|]. split; [vm_compute; reflexivity|]. split; [vm_compute; reflexivity|]. vm_compute. reflexivity.
+Qed.
